@@ -398,13 +398,14 @@ def norm(node: ast.AST) -> str:
 
 def own_nodes(func_node: ast.AST) -> Iterator[ast.AST]:
     """Walk a function body without descending into nested function / class definitions."""
-    stack = list(ast.iter_child_nodes(func_node))
+    # pre-order traversal in source order
+    stack = list(reversed(list(ast.iter_child_nodes(func_node))))
     while stack:
         n = stack.pop()
         yield n
         if isinstance(n, (ast.FunctionDef, ast.AsyncFunctionDef, ast.ClassDef, ast.Lambda)):
             continue
-        stack.extend(ast.iter_child_nodes(n))
+        stack.extend(reversed(list(ast.iter_child_nodes(n))))
 
 
 def calls_in(node: ast.AST, own: bool = True) -> List[ast.Call]:
